@@ -68,6 +68,11 @@ CHECKS = {
             'sh: every generated argument list is quoted with args2sh and the text is run by /bin/sh (dash) and bash as `set -- <text>; printf "%s\\0" "$#" "$@"` in a directory containing files that globs would match, with $A set, HOME redirected and (bash) failglob on, so any unquoted expansion character shows; shlex.split is a second oracle. cmd: args2cmd text is parsed by a parser written from the Microsoft specification (2n/2n+1 backslashes before a quote, quoted regions, "" in quotes). Integer ranges: parse(format(L)) == sorted(set(L)), canonical maximal-run form, int_ranges_from_int_list, complement_int_list for windows around and beyond the data, with alternative delimiters. gzip: levels 1-9, sizes incl. buffer boundaries (4096, 32768, 65536 +-1), both directions against the gzip module.',
             'Trusts dash/bash, shlex, the gzip module and the hand-written MS parser; NUL and lone surrogates excluded.',
             'DESIGN.md section 2, C14'),
+    'C13': ('exploration',
+            'exhaustive enumeration of a finite signature family x all call shapes (differential against the wrapped function itself) plus Hypothesis-generated larger signatures',
+            'Every run enumerates all 1120 signatures with <=3 positional parameters (every trailing-default position), *args, <=2 keyword-only parameters (each with/without default), **kwargs, annotations and async, compiles each from source, wraps it with wraps() and update_wrapper() and compares: inspect.signature(follow_wrapped=False), __name__/__doc__/__module__/__wrapped__, coroutine-ness, and all call shapes (0..n+2 positional x every subset of parameter names + an unknown keyword: 182k calls) - TypeError iff the original raises TypeError, otherwise identical bound arguments (coroutines driven to completion). injected (each parameter, pairs, an absent name) and expected (bare, pair, mapping, mutable default, existing name) are checked on the own signature. Hypothesis adds signatures with up to 6 positional / 4 keyword-only parameters, arbitrary identifiers, rich defaults, string annotations, lambdas and function attributes.',
+            'exhaustive: true only for the stated finite core; positional-only parameters out of scope; the known finding (expected bare name after defaults shifts a default) is excused only when names and kinds are intact and exactly that shift happened.',
+            'DESIGN.md section 2, C13'),
 }
 
 NOT_YET = 'check not built yet in this revision of /verif (work in progress; see DESIGN.md section 8)'
